@@ -67,6 +67,18 @@ def args_recorded(tr_args, args, kwargs):
     return all(x is y for x, y in zip(a, args)) and all(k[n] is kwargs[n] for n in k)
 
 
+def mk_handler(cls, **fields):
+    """construct a handler of the real class by FIELD NAME; a handler whose dataclass no longer has these fields was
+    restructured: the step invariant below is written for this state vector and is then undecided (the bounded
+    whole-function checks in fn_whole.py still decide the property on the fixed program)"""
+    import dataclasses
+
+    have = [f.name for f in dataclasses.fields(cls)]
+    if set(have) != set(fields):
+        raise EngineLimit("handler %s has fields %s, the step invariant is written for %s" % (cls.__name__, have, sorted(fields)))
+    return cls(**fields)
+
+
 class _DistBase(Contract):
     def replay(self, case, clause, model, path):
         return battery_replay()
@@ -298,7 +310,7 @@ class SimulateStep(_HandlerBase):
         self.site(case)
         self.score0 = real("score0")
         self.tm = self.abstract_trace_map()
-        self.h = core.Simulate(self.score0, self.tm, self.parent)
+        self.h = mk_handler(core.Simulate, score=self.score0, trace_map=self.tm, parent_fn=self.parent)
         return self.real(self.fn, self.h, self.addr, self.g, self.args, self.kwargs)
 
     def ensures(self, case, path):
@@ -338,7 +350,7 @@ class AssessStep(_HandlerBase):
         Vis = z3.Function(engine().fresh_name("Visited"), Atom, z3.BoolSort())
         self.Vis = Vis
         self.visited = SymSet("visited", init_has=lambda k: Vis(k))
-        self.h = core.Assess(self.cm, self.logp0, self.visited, self.parent)
+        self.h = mk_handler(core.Assess, choice_map=self.cm, logp=self.logp0, visited_addresses=self.visited, parent_fn=self.parent)
         return self.real(self.fn, self.h, self.addr, self.g, self.args, self.kwargs)
 
     def ensures(self, case, path):
@@ -373,7 +385,7 @@ class GenerateStep(_HandlerBase):
         self.InC, self.CV = InC, CV
         self.cm = SymDict("choice_map", init_has=lambda k: InC(k), init_get=lambda k: Sym(CV(k)))
         self.tm = self.abstract_trace_map()
-        self.h = core.Generate(self.cm, self.score0, self.w0, self.tm, self.parent)
+        self.h = mk_handler(core.Generate, choice_map=self.cm, score=self.score0, weight=self.w0, trace_map=self.tm, parent_fn=self.parent)
         return self.real(self.fn, self.h, self.addr, self.g, self.args, self.kwargs)
 
     def ensures(self, case, path):
@@ -446,7 +458,7 @@ class UpdateStep(_EditBase):
         self.cm = SymDict("choice_map", init_has=lambda k: InC(k), init_get=lambda k: Sym(CV(k)))
         self.tm = self.abstract_trace_map()
         self.disc = self.abstract_trace_map("discard")
-        self.h = core.Update(tr, self.cm, self.tm, self.disc, self.score0, self.w0, self.parent)
+        self.h = mk_handler(core.Update, trace=tr, choice_map=self.cm, trace_map=self.tm, discard=self.disc, score=self.score0, weight=self.w0, parent_fn=self.parent)
         return self.real(self.fn, self.h, self.addr, self.g, self.args, self.kwargs)
 
     def ensures(self, case, path):
@@ -496,7 +508,7 @@ class RegenerateStep(_EditBase):
         self.s = core.Selection(self.sel_inner)
         self.tm = self.abstract_trace_map()
         self.disc = self.abstract_trace_map("discard")
-        self.h = core.Regenerate(tr, self.s, self.tm, self.disc, self.score0, self.w0, self.parent)
+        self.h = mk_handler(core.Regenerate, trace=tr, s=self.s, trace_map=self.tm, discard=self.disc, score=self.score0, weight=self.w0, parent_fn=self.parent)
         return self.real(self.fn, self.h, self.addr, self.g, self.args, self.kwargs)
 
     def ensures(self, case, path):
